@@ -786,8 +786,18 @@ func VH_template(which int) {
 		toks = T(-1, I, int(token.POWER), -1, I, S)
 	case 12: // return / break / continue:  h h ;
 		toks = T(-1, -1, S)
-	default: // block:  { a ; h } h
+	case 13: // block:  { a ; h } h
 		toks = T(int(token.LEFT_BRACE), I, S, -1, int(token.RIGHT_BRACE), -1)
+	case 14: // statement position after else:  if ( a ) b ; else h x h y ;
+		toks = T(int(token.IF), LP, I, RP, I, S, int(token.ELSE), -1, I, -1, I, S)
+	case 15: // statement position after a while header:  while ( a ) h x h y ;
+		toks = T(int(token.WHILE), LP, I, RP, -1, I, -1, I, S)
+	case 16: // statement position after a for header:  for ( ; ; ) h x h y ;
+		toks = T(int(token.FOR), LP, S, S, RP, -1, I, -1, I, S)
+	case 17: // then-branch position:  if ( a ) h x h y ;
+		toks = T(int(token.IF), LP, I, RP, -1, I, -1, I, S)
+	default: // declaration position inside a function body:  fun f ( ) { h x h y ; }
+		toks = T(int(token.FUN), I, LP, RP, int(token.LEFT_BRACE), -1, I, -1, I, S, int(token.RIGHT_BRACE))
 	}
 	checkAgainstReference(toks)
 }
